@@ -14,7 +14,7 @@ from vf.harness import assemble
 LEVEL = "fault_enumeration"
 RULE = (
     "fault enumeration: valid generated programs rendered with random comments, blank lines, indentation, multi-line /* */ comments, "
-    "blocks, macro definitions and (nested) .include files x 14 classes of erroneous statement (undefined symbol in an operand / in a data "
+    "blocks, macro definitions and (nested) .include files x 19 classes of erroneous statement (undefined symbol in an operand / in a data "
     "directive / in a data list continued over two lines, unterminated string with an escaped quote followed by lines holding quote characters, bad size suffix, bad outer / inner index register, unterminated string before a newline / at end of input, size suffix "
     "missing at end of line) inserted at every statement position (thorough) or 8 positions (quick), in the main file and in included "
     "files; the reported file, zero-based line, quoted line text and (lexical errors) column are judged against the known insertion point; "
@@ -42,6 +42,12 @@ FAULTS = {
     "undefined_data_continued": ("node2", ".dw 1, 2,\n  3, undefined_zz9", None, 0),
     "undefined_data_continued_first": ("node2", ".dl undefined_zz9, 2,\n  3", None, 0),
     # an escaped quote inside the unterminated string, quote characters on later lines
+    # long lines (a table row written by a converter) and lines with text in another script: quoted as they are
+    "undefined_data_long_line": ("node", ".db " + ", ".join(f"0x{i:02X}" for i in range(40)) + ", undefined_zz9 + 1, " + ", ".join(str(i) for i in range(20)), None, 0),
+    "bad_suffix_long_line": ("scan", "lda.q 0x10 + 1 + 2 + 3 + 4 + 5 + 6 + 7 + 8 + 9 + 10 + 11 + 12 + 13 + 14 + 15 + 16 + 17 + 18 + 19 + 20 + 21 + 22 + 23 + 24 + 25 + 26 + 27 + 28 + 29 + 30 + 31", ".q", 1),
+    "undefined_operand_unicode_comment": ("node", "lda.w undefined_zz9 ; \u6575\u306eHP\u3092\u8aad\u3080 caf\u00e9", None, 0),
+    "unterminated_string_unicode": ("scan", ".ascii 'Pok\u00e9mon \u30ab\u30fc\u30bd\u30eb", "'Pok", 0),
+    "bad_index_after_unicode_comment": ("scan", "/* \u30ab\u30fc\u30bd\u30eb */ lda 0x10,q", ",q", 1),
     # the failing operand reads exactly like an earlier one that was fine (a name local to a scope, used inside it and then outside by mistake):
     # the statement that fails is the last line of this text
     "undefined_operand_same_text_as_earlier": ("node", ".scope sc_zz9 {\ninner_zz9:\njsr.w inner_zz9\n.dw inner_zz9\n}\njsr.w inner_zz9", None, 0, 5),
